@@ -47,6 +47,10 @@ func main() {
 		}
 		var seed int64
 		fmt.Sscan(os.Getenv("VERIF_SEED"), &seed)
+		switch *prop {
+		case "C12", "C13", "C18":
+			os.Exit(smallscope.Main(*prop, *tier, "/verif", seed))
+		}
 		self, _ := os.Executable()
 		mc.OnlyFilter = *only
 		os.Exit(mc.Check(*prop, *tier, "/verif", self, *procs, *budget, seed))
